@@ -25,16 +25,19 @@ import (
 	"k8s.io/kubernetes/pkg/scheduler/framework"
 
 	"github.com/koordinator-sh/koordinator/apis/extension"
+	schedulingv1alpha1 "github.com/koordinator-sh/koordinator/apis/scheduling/v1alpha1"
 	"github.com/koordinator-sh/koordinator/apis/thirdparty/scheduler-plugins/pkg/apis/scheduling/v1alpha1"
 	pgversioned "github.com/koordinator-sh/koordinator/apis/thirdparty/scheduler-plugins/pkg/generated/clientset/versioned"
 	pgfake "github.com/koordinator-sh/koordinator/apis/thirdparty/scheduler-plugins/pkg/generated/clientset/versioned/fake"
 	pgformers "github.com/koordinator-sh/koordinator/apis/thirdparty/scheduler-plugins/pkg/generated/informers/externalversions"
+	koordversioned "github.com/koordinator-sh/koordinator/pkg/client/clientset/versioned"
 	koordfake "github.com/koordinator-sh/koordinator/pkg/client/clientset/versioned/fake"
 	koordinatorinformers "github.com/koordinator-sh/koordinator/pkg/client/informers/externalversions"
 	"github.com/koordinator-sh/koordinator/pkg/scheduler/apis/config"
 	"github.com/koordinator-sh/koordinator/pkg/scheduler/frameworkext"
 	frameworkexthelper "github.com/koordinator-sh/koordinator/pkg/scheduler/frameworkext/helper"
 	"github.com/koordinator-sh/koordinator/pkg/scheduler/frameworkext/workloadauditor"
+	reservationutil "github.com/koordinator-sh/koordinator/pkg/util/reservation"
 )
 
 // ---- "wired" stream: the event handlers NewPodGroupManager REGISTERS on its informers ----
@@ -92,6 +95,7 @@ func c04Tombstone(obj interface{}) interface{} {
 type c04Wired struct {
 	mgr       *PodGroupManager
 	podH, pgH []k8scache.ResourceEventHandler // in registration order (the code registers one each)
+	rsvH      []k8scache.ResourceEventHandler // what it registered on the Reservation informer (the reservation -> pod adapter)
 }
 
 type c04WireClients struct {
@@ -116,11 +120,13 @@ func c04Wire(fh fwktype.Handle, args *config.CoschedulingArgs, cl *c04WireClient
 	pgFactory := pgformers.NewSharedInformerFactory(cl.pgcs, 0)
 	pgFactory.InformerFor(&v1alpha1.PodGroup{}, func(pgversioned.Interface, time.Duration) k8scache.SharedIndexInformer { return pgCap })
 	koordFactory := koordinatorinformers.NewSharedInformerFactory(cl.koord, 0)
+	rsvCap := &c04CapInformer{SharedIndexInformer: k8scache.NewSharedIndexInformer(&k8scache.ListWatch{}, &schedulingv1alpha1.Reservation{}, 0, idx)}
+	koordFactory.InformerFor(&schedulingv1alpha1.Reservation{}, func(koordversioned.Interface, time.Duration) k8scache.SharedIndexInformer { return rsvCap })
 	mgr := NewPodGroupManager(fh, args, cl.pgcs, pgFactory, factory, koordFactory)
 	if len(podCap.got) == 0 || len(pgCap.got) == 0 {
 		return nil, fmt.Errorf("NewPodGroupManager registered %d pod handlers and %d PodGroup handlers on its informers", len(podCap.got), len(pgCap.got))
 	}
-	return &c04Wired{mgr: mgr, podH: podCap.got, pgH: pgCap.got}, nil
+	return &c04Wired{mgr: mgr, podH: podCap.got, pgH: pgCap.got, rsvH: rsvCap.got}, nil
 }
 
 // C04 harness.  One case = one history of informer events (pod / PodGroup add, update, delete)
@@ -393,6 +399,24 @@ func c04Pod(p, g, way int, node string, c c04Cfg, minOK int, r *vRand) *corev1.P
 	return pod
 }
 
+// c04Rsv: a Reservation that is a gang member.  The gang labels / annotations of `pod` go into spec.template (or, own =
+// true, onto the Reservation itself: NewReservePod lets the object's metadata overwrite the template's); the UID is the
+// pod's name, so that the reserve pod NewReservePod builds is ns/p<id>.  reqNode = spec.template.spec.nodeName (the node
+// the user REQUESTS), schedNode = status.nodeName (the scheduling RESULT).
+func c04Rsv(pod *corev1.Pod, own bool, reqNode, schedNode string) *schedulingv1alpha1.Reservation {
+	rsv := &schedulingv1alpha1.Reservation{ObjectMeta: metav1.ObjectMeta{Name: "r-" + pod.Name, UID: types.UID(pod.Name)}}
+	tmpl := &corev1.PodTemplateSpec{ObjectMeta: metav1.ObjectMeta{Namespace: pod.Namespace}}
+	if own {
+		rsv.Labels, rsv.Annotations = pod.Labels, pod.Annotations
+	} else {
+		tmpl.Labels, tmpl.Annotations = pod.Labels, pod.Annotations
+	}
+	tmpl.Spec.NodeName = reqNode
+	rsv.Spec.Template = tmpl
+	rsv.Status.NodeName = schedNode
+	return rsv
+}
+
 func c04ParseID(s, prefix string) int {
 	if !strings.HasPrefix(s, prefix) {
 		return -1
@@ -469,6 +493,9 @@ type c04PodSt struct {
 	flight   int  // 0 none, 1 parked at Permit (framework waiting map), 2 released (bind pending), 3 rejected (unreserve pending)
 	seenNode bool // an informer event of this pod incarnation carried a node name (it can never be empty again)
 	gone     bool // the delete event of the pod was delivered (object or tombstone) and no event / call has named the pod since
+	rsv      bool // the member is a Reservation: its events come through the reservation -> pod adapter, calls get the reserve pod
+	rsvReq   bool // ... whose template pins a node (spec.template.spec.nodeName): a REQUEST, not a scheduling result
+	rsvOwn   bool // ... with the gang labels / annotations on the Reservation itself instead of in the template
 	tainted  bool // the pod got a call outside the framework / informer contract (Permit while bound, PostBind without release, node name going back to empty); such a pod is exempt from the two-sets clause (not from member-in-no-set)
 }
 
@@ -744,9 +771,21 @@ func TestVerifC04(t *testing.T) {
 	if vEnvInt("VERIF_C04_NOEXH", 0) != 0 {
 		nWexh = 0
 	}
+	// reservation stream (after everything else): some members of the gangs are RESERVATIONS (gang labels / annotations
+	// in spec.template or on the object).  Their informer events go through the reservation -> pod adapter: two cases out
+	// of three the handler NewPodGroupManager REGISTERED on the (captured) Reservation informer, else
+	// reservationutil.NewReservationToPodEventHandler around the GangCache's pod handlers; the scheduling calls get the
+	// reserve pod (reservationutil.NewReservePod).  A Reservation is shown pending, pending with a REQUESTED node
+	// (spec.template.spec.nodeName), scheduled (status.nodeName; Available / Waiting) or succeeded / failed; deletes as the
+	// object, a re-list tombstone or an ignored shape.
+	nRsv := n / 5
+	if v := vEnvInt("VERIF_C04_NRSV", -1); v >= 0 {
+		nRsv = v
+	}
 	resBase := n + nExh + nConc + nShp
 	wexhBase := resBase + nRes + nWired + nRace
-	for idx := 0; idx < wexhBase+nWexh; idx++ {
+	rsvBase := wexhBase + nWexh
+	for idx := 0; idx < rsvBase+nRsv; idx++ {
 		r := h.Begin(idx)
 		if r == nil {
 			continue
@@ -764,7 +803,11 @@ func TestVerifC04(t *testing.T) {
 			h.End()
 			continue
 		}
-		wexh := idx >= wexhBase
+		wexh := idx >= wexhBase && idx < rsvBase
+		rsvS := idx >= rsvBase
+		if rsvS {
+			wired = idx%3 != 0
+		}
 		exhIdx, exhC := idx-n, exhCfgs
 		if wexh {
 			exh, wired, exhIdx, exhC = true, true, idx-wexhBase, wexhCfgs
@@ -919,6 +962,24 @@ func TestVerifC04(t *testing.T) {
 			}
 			h.Tag("resolution-exhaustive")
 		}
+		if rsvS {
+			h.Tag("reservation-members")
+			k := 0
+			for _, ps := range pods {
+				if r.Chance(1, 3) {
+					ps.rsv = true
+					k++
+				}
+			}
+			if k == 0 {
+				pods[r.Intn(len(pods))].rsv = true
+			}
+			for _, ps := range pods {
+				if ps.rsv {
+					ps.rsvReq, ps.rsvOwn = r.Bool(), r.Chance(1, 4)
+				}
+			}
+		}
 		h.Tag(fmt.Sprintf("gangs:%d", nG))
 		h.Tag(fmt.Sprintf("configured-default-policy:%d", dflt))
 
@@ -936,6 +997,7 @@ func TestVerifC04(t *testing.T) {
 		evPGAdd := func(pg *v1alpha1.PodGroup) { cache.onPodGroupAdd(pg) }
 		evPGUpd := func(o, nw *v1alpha1.PodGroup) { cache.onPodGroupUpdate(o, nw) }
 		evPGDel := func(obj interface{}) { cache.onPodGroupDelete(obj) }
+		var wiredRsvH []k8scache.ResourceEventHandler
 		if wired {
 			h.Tag("wired")
 			if wireClients == nil {
@@ -949,6 +1011,7 @@ func TestVerifC04(t *testing.T) {
 				continue
 			}
 			mgr, cache = w.mgr, w.mgr.cache
+			wiredRsvH = w.rsvH
 			evPodAdd = func(pod *corev1.Pod) {
 				for _, eh := range w.podH {
 					eh.OnAdd(pod, false)
@@ -980,6 +1043,34 @@ func TestVerifC04(t *testing.T) {
 				}
 			}
 		}
+		// Reservation events: through the adapter the manager registered on the Reservation informer (wired), or through
+		// the same adapter built by hand around the GangCache's pod handlers
+		rsvHandlers := []k8scache.ResourceEventHandler{reservationutil.NewReservationToPodEventHandler(k8scache.ResourceEventHandlerFuncs{
+			AddFunc: cache.onPodAdd, UpdateFunc: cache.onPodUpdate, DeleteFunc: cache.onPodDelete})}
+		if wired {
+			rsvHandlers = wiredRsvH
+		}
+		if rsvS && len(rsvHandlers) == 0 {
+			h.Op("# wired fixture")
+			h.Fail("C04:no-informer-handler-registered", "NewPodGroupManager registered no handler on the Reservation informer")
+			h.End()
+			continue
+		}
+		evRsvAdd := func(x *schedulingv1alpha1.Reservation) {
+			for _, eh := range rsvHandlers {
+				eh.OnAdd(x, false)
+			}
+		}
+		evRsvUpd := func(o, nw *schedulingv1alpha1.Reservation) {
+			for _, eh := range rsvHandlers {
+				eh.OnUpdate(o, nw)
+			}
+		}
+		evRsvDel := func(obj interface{}) {
+			for _, eh := range rsvHandlers {
+				eh.OnDelete(obj)
+			}
+		}
 		// gone(p): the delete event of pod p was delivered (in a shape onPodDelete understands) and nothing has named p since
 		gone := func(p int) bool {
 			for _, x := range pods {
@@ -988,6 +1079,18 @@ func TestVerifC04(t *testing.T) {
 				}
 			}
 			return false
+		}
+		unscheduledRsv := func(xs []int) int { // live reserve-pod members whose Reservation the harness never saw scheduled / bound
+			k := 0
+			for _, q := range xs {
+				for _, x := range pods {
+					if x.id == q && x.rsv && !x.gone && !x.bound {
+						k++
+						h.Tag("oracle:unscheduled reservation in the bound set not counted")
+					}
+				}
+			}
+			return k
 		}
 		live := func(xs []int) int { // members the harness has not seen deleted
 			k := 0
@@ -1117,7 +1220,9 @@ func TestVerifC04(t *testing.T) {
 						// gone holds nothing); minimum, policy and group are what was DECLARED
 						cnt := live(s.wa)
 						if d.pol == 1 {
-							cnt += live(s.bo)
+							// a reserve pod holds resources as a bound member only when its Reservation is actually scheduled
+							// (status.nodeName was shown, or PostBind ran) — harness view, not the cache's
+							cnt += live(s.bo) - unscheduledRsv(s.bo)
 						}
 						// under the once-satisfied policy a group that was satisfied before is no longer constrained
 						onceOK := d.pol == 2 && (groupSatisfied(gq) || groupSatisfied(x))
@@ -1218,6 +1323,7 @@ func TestVerifC04(t *testing.T) {
 		// pod object of the moment (annotations are per pod event: the first valid one initialises the gang)
 		var mkC c04Cfg // the configuration and min-validity the last mkPod wrote into the pod
 		mkMinOK := 1
+		var mkRsv *schedulingv1alpha1.Reservation // the Reservation behind the reserve pod the last mkPod returned
 		mkPod := func(ps *c04PodSt, node string) (*corev1.Pod, string) {
 			way := ways[ps.g]
 			c := cfgs[ps.g]
@@ -1232,8 +1338,21 @@ func TestVerifC04(t *testing.T) {
 					c = c.respell(r)
 				}
 			}
-			pod := c04Pod(ps.id, ps.g, way, node, c, minOK, r)
+			podNode := node
+			if ps.rsv {
+				podNode = ""
+			}
+			pod := c04Pod(ps.id, ps.g, way, podNode, c, minOK, r)
 			mkC, mkMinOK = c, minOK
+			if ps.rsv {
+				// the member is a Reservation: `node` is its status.nodeName; what the code gets is the reserve pod
+				req := ""
+				if ps.rsvReq {
+					req = "n1"
+				}
+				mkRsv = c04Rsv(pod, ps.rsvOwn, req, node)
+				pod = reservationutil.NewReservePod(mkRsv)
+			}
 			if way == 0 {
 				return pod, "0"
 			}
@@ -1335,31 +1454,60 @@ func TestVerifC04(t *testing.T) {
 		}
 		doPodEvt := func(ps *c04PodSt, update bool, node bool, term bool) {
 			pod, tail := mkPod(ps, nodeOf(node))
+			rsvPhase := 0
 			if term {
-				pod.Status.Phase = []corev1.PodPhase{corev1.PodSucceeded, corev1.PodFailed}[r.Intn(2)]
+				rsvPhase = 1 + r.Intn(2)
+				pod.Status.Phase = []corev1.PodPhase{corev1.PodSucceeded, corev1.PodFailed}[rsvPhase-1]
 			}
+			if ps.rsv {
+				switch {
+				case rsvPhase == 1:
+					mkRsv.Status.Phase = schedulingv1alpha1.ReservationSucceeded
+				case rsvPhase == 2:
+					mkRsv.Status.Phase = schedulingv1alpha1.ReservationFailed
+				case node:
+					mkRsv.Status.Phase = []schedulingv1alpha1.ReservationPhase{schedulingv1alpha1.ReservationAvailable, schedulingv1alpha1.ReservationWaiting}[r.Intn(2)]
+				case r.Bool():
+					mkRsv.Status.Phase = schedulingv1alpha1.ReservationPending
+				}
+			}
+			// an ADD is not filtered by the phase (onPodAdd does not look at it): a terminated Reservation that is added counts
+			counted := !term || (ps.rsv && !update)
 			ps.gone = false
-			if !term && !node && ps.seenNode {
+			if counted && !node && ps.seenNode {
 				ps.tainted = true // an informer never shows a node name and then an empty one for the same pod
 				h.Tag("out-of-order:node-name-unset")
 			}
 			fwB := begin()
-			if update {
+			switch {
+			case ps.rsv && update:
+				h.Op("rsvupd %d %d %d %d %d %s", ps.id, ps.g, vB(ps.rsvReq), vB(node), rsvPhase, tail)
+			case ps.rsv:
+				h.Op("rsvadd %d %d %d %d %d %s", ps.id, ps.g, vB(ps.rsvReq), vB(node), rsvPhase, tail)
+			case update:
 				h.Op("podupd %d %d %d %d %s", ps.id, ps.g, vB(node), vB(term), tail)
-			} else {
+			default:
 				h.Op("podadd %d %d %d 0 %s", ps.id, ps.g, vB(node), tail)
 			}
 			pan := h.Guard(func() {
-				if update {
+				switch {
+				case ps.rsv && update:
+					evRsvUpd(mkRsv, mkRsv)
+				case ps.rsv:
+					evRsvAdd(mkRsv)
+				case update:
 					evPodUpd(pod, pod)
-				} else {
+				default:
 					evPodAdd(pod)
 				}
 			})
-			if !term && ways[ps.g] != 0 && decl[ps.g] == nil && mkMinOK == 1 {
+			if ps.rsv {
+				h.Tag(fmt.Sprintf("reservation-event:update=%d requested-node=%d scheduled=%d phase=%d", vB(update), vB(ps.rsvReq), vB(node), rsvPhase))
+			}
+			if counted && ways[ps.g] != 0 && decl[ps.g] == nil && mkMinOK == 1 {
 				declare(ps.g, mkC, "pod") // the first valid annotated pod initialises a gang that has nothing declared
 			}
-			if !term {
+			if counted {
 				ps.added = true
 				if node {
 					markBound(ps)
@@ -1373,7 +1521,65 @@ func TestVerifC04(t *testing.T) {
 			}
 			finish(0, ps, 9, fwB, pan)
 		}
+		// the Reservation behind a reserve-pod member is deleted: OnDelete of the adapter gets the object, a re-list tombstone
+		// (by value, around the Reservation) or a shape it ignores (pointer to a tombstone, tombstone around a Pod / nil)
+		doRsvDel := func(ps *c04PodSt) {
+			pod, _ := mkPod(ps, nodeOf(ps.bound))
+			rsv := mkRsv
+			fwB := begin()
+			var obj interface{} = rsv
+			shape := 0
+			switch v := r.Intn(20); {
+			case v < 9:
+				shape = 1
+				if obj = c04Tombstone(rsv); obj == nil {
+					obj = k8scache.DeletedFinalStateUnknown{Key: rsv.Name, Obj: rsv}
+					h.Tag("tombstone:built by hand")
+				}
+			case v < 12:
+				shape = 2
+				switch r.Intn(3) {
+				case 0:
+					obj = &k8scache.DeletedFinalStateUnknown{Key: rsv.Name, Obj: rsv}
+				case 1:
+					obj = k8scache.DeletedFinalStateUnknown{Key: rsv.Name, Obj: pod}
+				default:
+					obj = k8scache.DeletedFinalStateUnknown{Key: rsv.Name, Obj: nil}
+				}
+			}
+			h.Op("rsvdel %d %d %d", ps.id, ps.g, shape)
+			h.Tag(fmt.Sprintf("rsvdel:shape=%d", shape))
+			if sp, ok := prev[ps.g]; ok && (c04Has(sp.wa, ps.id) || c04Has(sp.bo, ps.id)) {
+				h.Tag(fmt.Sprintf("rsvdel:of a member that holds resources, shape=%d", shape))
+			}
+			pan := h.Guard(func() { evRsvDel(obj) })
+			if shape != 2 {
+				ps.added, ps.bound, ps.tainted, ps.seenNode = false, false, false, false
+				ps.gone = true
+			}
+			h.Tag("op:rsvdel")
+			finish(0, ps, 9, fwB, pan)
+		}
+		// a member arrives: a pod without node (or, node = true, already assigned); a Reservation pending (its template may
+		// pin a node: rsvReq), scheduled, or already succeeded / failed
+		arrive := func(ps *c04PodSt, node bool) {
+			term := false
+			if ps.rsv {
+				switch v := r.Intn(8); {
+				case v < 5:
+				case v < 7:
+					node = true
+				default:
+					node, term = r.Bool(), true
+				}
+			}
+			doPodEvt(ps, false, node, term)
+		}
 		doPodDel := func(ps *c04PodSt) {
+			if ps.rsv {
+				doRsvDel(ps)
+				return
+			}
 			pod, _ := mkPod(ps, nodeOf(ps.bound))
 			fwB := begin()
 			// what the informer hands to OnDelete: 0 the object, 1 a re-list tombstone (DeletedFinalStateUnknown by value)
@@ -1561,6 +1767,9 @@ func TestVerifC04(t *testing.T) {
 		if wired && !scripted {
 			scripted = r.Chance(1, 2)
 		}
+		if rsvS && !scripted {
+			scripted = r.Chance(1, 2)
+		}
 		if shp {
 			nOps, scripted = 0, false
 			doPGAdd(1, false)
@@ -1653,7 +1862,7 @@ func TestVerifC04(t *testing.T) {
 			}
 			for _, i := range r.Perm(len(pods)) {
 				if r.Chance(9, 10) {
-					doPodEvt(pods[i], false, false, false)
+					arrive(pods[i], false)
 				}
 			}
 		}
@@ -1697,7 +1906,7 @@ func TestVerifC04(t *testing.T) {
 				}
 			case w < 22: // a pod arrives
 				if ps := pick(func(x *c04PodSt) bool { return !x.added }); ps != nil {
-					doPodEvt(ps, false, r.Chance(1, 8), false)
+					arrive(ps, r.Chance(1, 8))
 				}
 			case w < 52: // a scheduling cycle for a schedulable member
 				ps := pick(func(x *c04PodSt) bool { return x.added && !x.bound && x.flight == 0 })
@@ -2254,5 +2463,8 @@ func TestVerifC04(t *testing.T) {
 			"(captured) pod / PodGroup informer, deletes as the object, as a re-list tombstone (DeletedFinalStateUnknown by value) or in a shape the code ignores, members that hold resources deleted more often; ", nWired) +
 		fmt.Sprintf("plus the exhaustive stream once more (%d cases, 2 strict configurations) on a NewPodGroupManager-built manager through the registered handlers with every delete as a tombstone; ", nWexh) +
 		fmt.Sprintf("plus a new-gang race stream of %d cases: the pod informer goroutine (onPodAdd of the first members) and the PodGroup informer goroutine (onPodGroupAdd) meet at a spin barrier "+
-			"before each of 8-40 brand-new gang ids per round, 2-5 rounds, oracle at the barrier (every added pod in exactly one set of the CACHED gang, gang initialised from its PodGroup); non-trivial there = all rounds ran", nRace))
+			"before each of 8-40 brand-new gang ids per round, 2-5 rounds, oracle at the barrier (every added pod in exactly one set of the CACHED gang, gang initialised from its PodGroup); non-trivial there = all rounds ran; ", nRace) +
+		fmt.Sprintf("plus a reservation stream of %d cases: the same histories with one or more members of the gangs being Reservations (gang labels / annotations in spec.template or on the object), their events through the "+
+			"reservation -> pod adapter (2 of 3 cases the handler NewPodGroupManager registered on the captured Reservation informer, else NewReservationToPodEventHandler around the GangCache's pod handlers), shown pending / pending with a "+
+			"requested node (spec.template.spec.nodeName) / scheduled (status.nodeName, Available or Waiting) / succeeded / failed, deleted as object / tombstone / ignored shape, scheduling calls on the reserve pod (NewReservePod)", nRsv))
 }
